@@ -107,6 +107,10 @@ Definition unwrap (st : store) (r : rval) : rval :=
   | Place l i => match deref st r with VNil => r | v => Imm v end
   end.
 
+(* detachValue: what an assignment, a binding, an argument or a kept result holds is the value the
+   place had at that moment, no longer the place *)
+Definition detach (st : store) (r : rval) : rval := Imm (deref st r).
+
 Definition len_of_st (st : store) (v : value) : nat := len_of st v.
 
 Definition truthy (s : rstate) (k : bool -> outcome) : outcome :=
@@ -313,12 +317,13 @@ Fixpoint eval_values (es : list expr) (s : rstate) (acc : list value) (k : list 
               eval_values r s1 (deref (r_st s1) (r_rv s1) :: acc) k
   end.
 
-(* the same, keeping the reflect.Values themselves (places stay places) *)
+(* the same as reflect.Values, each detached from the place it was read from as soon as it is
+   evaluated (makeCallArgs / callVMFunctionDirect: detachValue) *)
 Fixpoint eval_rvals (es : list expr) (s : rstate) (acc : list rval) (k : list rval -> rstate -> outcome) : outcome :=
   match es with
   | [] => k (rev acc) s
   | e :: r => do s1 <- rec (CExpr e) s;
-              eval_rvals r s1 (r_rv s1 :: acc) k
+              eval_rvals r s1 (detach (r_st s1) (r_rv s1) :: acc) k
   end.
 
 (* invokeArrayExpr, untyped literal *)
@@ -864,7 +869,7 @@ Definition call_function (f : value) (args : list expr) (vararg go : bool) (s : 
               | VSlice l off n _ =>
                   let need := num_in - lead in
                   if n <? need then arity_error num_in (num_exprs + n - 1) s2
-                  else finish (head ++ map (fun i => Place l (off + i)) (seq 0 need)) false s2
+                  else finish (head ++ map (fun i => detach (r_st s2) (Place l (off + i))) (seq 0 need)) false s2
               | v => raise "call is variadic but last parameter is not a slice" s2
               end
           | _ => Abort (APanic "index out of range: spread call without argument")
@@ -897,8 +902,8 @@ Definition call_function (f : value) (args : list expr) (vararg go : bool) (s : 
                   do s2 <- rec (CExpr e) s1;
                   match deref (r_st s2) (r_rv s2) with
                   | VSlice l off n _ =>
-                      if isvm then finish (head ++ [r_rv s2]) true s2
-                      else finish (head ++ map (fun i => Place l (off + i)) (seq 0 n)) true s2
+                      if isvm then finish (head ++ [detach (r_st s2) (r_rv s2)]) true s2
+                      else finish (head ++ map (fun i => detach (r_st s2) (Place l (off + i))) (seq 0 n)) true s2
                   | VNil => if isvm then unsupported "nil spread" else finish head true s2
                   | _ => raise "function wants argument type []interface {}" s2
                   end
@@ -931,7 +936,7 @@ Fixpoint eval_rhs (es : list expr) (s : rstate) (acc : list rval) (k : list rval
   | [] => k (rev acc) s
   | e :: r => do s1 <- rec (CExpr e) s;
               match copy_if_module (r_st s1) (r_rv s1) with
-              | Some (st', rv') => eval_rhs r (set_st s1 st') (rv' :: acc) k
+              | Some (st', rv') => eval_rhs r (set_st s1 st') (detach st' rv' :: acc) k
               | None => Abort (APanic "deep copy")
               end
   end.
@@ -960,7 +965,7 @@ Definition run_var (names : list string) (es : list expr) (s : rstate) : outcome
       end in
     match spread with
     | Some (l, off, n) =>
-        let places := map (fun i => Place l (off + i)) (seq 0 n) in
+        let places := map (fun i => detach st (Place l (off + i))) (seq 0 n) in
         Ok (set_rv (set_st s1 (define_all st (r_env s1) names places)) (Place l (off + n - 1)))
     | None =>
         match rev rvs with
@@ -973,7 +978,8 @@ Definition run_var (names : list string) (es : list expr) (s : rstate) : outcome
 Fixpoint let_all (ls : list expr) (rvs : list rval) (s : rstate) (unwrap_each : bool) : outcome :=
   match ls, rvs with
   | l :: lr, r :: rr =>
-      let r' := if unwrap_each then unwrap (r_st s) r else r in
+      (* the elements of an unpacked list are read, and detached, one by one as they are assigned *)
+      let r' := if unwrap_each then unwrap (r_st s) r else detach (r_st s) r in
       do s1 <- rec (CLet l) (set_rv s r'); let_all lr rr s1 unwrap_each
   | _, _ => Ok s
   end.
@@ -1128,7 +1134,7 @@ Definition for_slice_iter (var : string) (body : option stmt) (l off len i : nat
   let '(cancelled, s0) := poll s in
   if cancelled then Err (ESentinel SInterruptS) (set_rv s0 rv_nil) else
   let iv := deref (r_st s0) (Place l (off + i)) in
-  let st1 := env_define (r_st s0) (r_env s0) var (match iv with VNil => Place l (off + i) | _ => Imm iv end) in
+  let st1 := env_define (r_st s0) (r_env s0) var (Imm iv) in
   match rec (CStmt body) (set_st s0 st1) with
   | Abort a => Abort a
   | Ok s2 => rec (CForSlice var body l off len (S i)) s2
@@ -1258,7 +1264,12 @@ Definition run_cfor (s1o : option stmt) (e2 e3 : option expr) (body : option stm
 Definition run_return (es : list expr) (s : rstate) : outcome :=
   match es with
   | [] => Ok (set_rv s rv_nil)
-  | [e] => rec (CExpr e) s
+  | [e] => (* the result is the value at the return statement: deferred calls run after it *)
+           match rec (CExpr e) s with
+           | Ok s1 => Ok (set_rv s1 (detach (r_st s1) (r_rv s1)))
+           | Err er s1 => Err er (set_rv s1 (detach (r_st s1) (r_rv s1)))
+           | Abort a => Abort a
+           end
   | _ => eval_values es s [] (fun vs s1 => let '(st', sl) := new_slice (r_st s1) vs in ret sl (set_st s1 st'))
   end.
 
@@ -1378,7 +1389,7 @@ Definition run_defers (ds : list dcall) (err0 : option err) (s : rstate) : outco
   match ds with
   | [] => match err0 with Some e => Err e s | None => Ok s end
   | d :: r =>
-      let rv0 := r_rv s in
+      let rv0 := detach (r_st s) (r_rv s) in
       match rec (CApply (d_fn d) (d_args d) (d_slice d)) s with
       | Abort a => Abort a
       | Ok s1 => rec (CDefers r err0) (set_rv s1 rv0)
